@@ -120,53 +120,88 @@ Proof.
   rewrite int_to_double_model. reflexivity.
 Qed.
 
-(* ---------- witnesses: every class does panic on a well-typed literal ---------- *)
+(* ---------- the shapes repaired in pilota-build: the former panic witnesses now lower to the IDL value ---------- *)
 Definition pf0 (s : list byte) : option Z :=
   if bytes_eqb s [x32; x2e; x35] then Some 4612811918334230528 else None.      (* "2.5" *)
 
-(* F-14g: a map literal inside a list literal *)
+(* F-14g: a map literal inside a list literal, inside a map literal, behind a typedef, as a struct-literal member *)
 Definition W_nested_map : lschema :=
-  mkLS [IStruct [mkLF [x66] 1 Optional (RVec (RMap RI8 RFastStr)) (Some (LList [LMap [(LInt 1, LString [x78])]]))] false false] [].
-Example nested_map_refuted :
+  mkLS [IStruct [mkLF [x66] 1 Optional (RVec (RMap RI8 RFastStr)) (Some (LList [LMap [(LInt 1, LString [x78])]]))] false false;
+        INewType (RMap RI8 RI8);
+        IStruct [mkLF [x61] 1 Required RI32 None; mkLF [x6d] 2 Optional (RMap RFastStr RI32) None] false false] [].
+Example nested_map_repaired :
   well_typed_lit pf0 W_nested_map (erase (RVec (RMap RI8 RFastStr))) (LList [LMap [(LInt 1, LString [x78])]]) = true /\
-  default_val_lit pf0 W_nested_map (RVec (RMap RI8 RFastStr)) (LList [LMap [(LInt 1, LString [x78])]]) = LPanic PUnexpectedLiteral /\
-  pclass_top W_nested_map (LList [LMap [(LInt 1, LString [x78])]]) (item_cty (RVec (RMap RI8 RFastStr))) = Some PCNestedMap /\
-  (* the shape of the registered finding: map<i8, map<i8, string>> = {1: {2: "x"}} *)
-  default_val_lit pf0 W_nested_map (RMap RI8 (RMap RI8 RFastStr)) (LMap [(LInt 1, LMap [(LInt 2, LString [x78])])]) = LPanic PUnexpectedLiteral /\
-  (* and a typedef of a map type *)
-  default_val_lit pf0 (mkLS [INewType (RMap RI8 RI8)] []) (RPath 0) (LMap [(LInt 1, LInt 2)]) = LPanic PUnexpectedLiteral.
+  pclass_top W_nested_map (LList [LMap [(LInt 1, LString [x78])]]) (item_cty (RVec (RMap RI8 RFastStr))) = None /\
+  default_val_lit pf0 W_nested_map (RVec (RMap RI8 RFastStr)) (LList [LMap [(LInt 1, LString [x78])]])
+    = LOk (GList [GMap [(GI8 1, GBytes [x78])]], false) /\
+  (* the shape of the registered finding: map<i8, map<i8, string>> = {1: {2: "x"}}, and `[]` for a nested empty map *)
+  default_val_lit pf0 W_nested_map (RMap RI8 (RMap RI8 RFastStr)) (LMap [(LInt 1, LMap [(LInt 2, LString [x78])]); (LInt 3, LList [])])
+    = LOk (GMap [(GI8 1, GMap [(GI8 2, GBytes [x78])]); (GI8 3, GMap [])], false) /\
+  (* a typedef of a map type *)
+  default_val_lit pf0 W_nested_map (RPath 1) (LMap [(LInt 1, LInt 2)]) = LOk (GMap [(GI8 1, GI8 2)], false) /\
+  (* a map-typed member of a struct literal *)
+  default_val_lit pf0 W_nested_map (RPath 2) (LMap [(LString [x61], LInt 1); (LString [x6d], LMap [(LString [x6b], LInt 5)])])
+    = LOk (GStruct [(1, GI32 1); (2, GMap [(GBytes [x6b], GI32 5)])] [], false).
 Proof. vm_compute. repeat split; reflexivity. Qed.
 
-(* F-14l: an enum member at a typedef of the enum (and a const through a typedef: the same site) *)
-Definition W_enum_typedef : lschema := mkLS [IEnum [0; 1]; INewType (RPath 0); INewType RI32] [(RI32, LInt 7)].
-Example enum_typedef_refuted :
+(* F-14l and its siblings: an enum member / a const at a typedef'd target *)
+Definition W_enum_typedef : lschema :=
+  mkLS [IEnum [0; 1]; INewType (RPath 0); INewType RI32; INewType RFastStr; INewType (RPath 2)]
+       [(RI32, LInt 7); (RFastStr, LString [x6c])].
+Example enum_typedef_repaired :
   well_typed_lit pf0 W_enum_typedef (erase (RPath 1)) (LMember 0 1) = true /\
-  default_val_lit pf0 W_enum_typedef (RPath 1) (LMember 0 1) = LPanic PInvalidConvert /\
-  pclass_top W_enum_typedef (LMember 0 1) (item_cty (RPath 1)) = Some PCPathConvert /\
-  (* by number it works *)
+  pclass_top W_enum_typedef (LMember 0 1) (item_cty (RPath 1)) = None /\
+  default_val_lit pf0 W_enum_typedef (RPath 1) (LMember 0 1) = LOk (GEnum 1, true) /\
   default_val_lit pf0 W_enum_typedef (RPath 1) (LInt 1) = LOk (GEnum 1, true) /\
-  well_typed_lit pf0 W_enum_typedef (erase (RPath 2)) (LConst 0) = true /\
-  default_val_lit pf0 W_enum_typedef (RPath 2) (LConst 0) = LPanic PInvalidConvert.
+  (* a const through one and through two typedefs, a string const at a typedef of string *)
+  default_val_lit pf0 W_enum_typedef (RPath 2) (LConst 0) = LOk (GI32 7, true) /\
+  default_val_lit pf0 W_enum_typedef (RPath 4) (LConst 0) = LOk (GI32 7, true) /\
+  default_val_lit pf0 W_enum_typedef (RPath 3) (LConst 1) = LOk (GBytes [x6c], true) /\
+  pclass_top W_enum_typedef (LConst 0) (item_cty (RPath 4)) = None.
 Proof. vm_compute. repeat split; reflexivity. Qed.
 
-(* F-14i: a const of set type panics in its own definition, empty or not; a reference to it cannot convert *)
-Definition W_const_set : lschema := mkLS [] [(RSet RI32, LList [LInt 1]); (RSet RI32, LList [])].
-Example const_set_refuted :
-  const_value pf0 W_const_set 0 = LPanic PAssertEmpty /\ const_value pf0 W_const_set 1 = LPanic PInvalidMapType /\
+(* F-14i: a const of set type has a definition now *)
+Definition W_const_set : lschema := mkLS [] [(RSet RI32, LList [LInt 1; LInt 2]); (RSet RI32, LList []); (RBTreeSet RFastStr, LList [LString [x61]])].
+Example const_set_repaired :
+  const_value pf0 W_const_set 0 = LOk (GSet [GI32 1; GI32 2]) /\ const_value pf0 W_const_set 1 = LOk (GSet []) /\
+  const_value pf0 W_const_set 2 = LOk (GSet [GBytes [x61]]).
+Proof. vm_compute. repeat split; reflexivity. Qed.
+
+(* an integer at a set<double> element / map key; a string const at a `pilota.rust_type = "string"` field *)
+Example other_arms_repaired :
+  default_val_lit pf0 (mkLS [] []) (RSet ROrderedF64) (LList [LInt 1; LFloat [x32; x2e; x35]])
+    = LOk (GSet [GDouble 4607182418800017408; GDouble 4612811918334230528], false) /\
+  pclass_top (mkLS [] []) (LList [LInt 1]) (item_cty (RSet ROrderedF64)) = None /\
+  default_val_lit pf0 (mkLS [] []) (RMap ROrderedF64 RFastStr) (LMap [(LInt 3, LString [x78])])
+    = LOk (GMap [(GDouble 4613937818241073152, GBytes [x78])], false) /\
+  default_val_lit pf0 (mkLS [] [(RFastStr, LString [x78])]) RString (LConst 0) = LOk (GBytes [x78], false) /\
+  pclass_top (mkLS [] [(RFastStr, LString [x78])]) (LConst 0) (item_cty RString) = None.
+Proof. vm_compute. repeat split; reflexivity. Qed.
+
+(* ---------- witnesses: what still panics on a well-typed literal, one per remaining class ---------- *)
+(* no arm: any literal at a `pilota.rust_wrapper_arc` type; a string at `binary` with rust_type = "vec" *)
+Example no_arm_refuted :
+  well_typed_lit pf0 (mkLS [] []) (erase (RArc RString)) (LString [x61]) = true /\
+  default_val_lit pf0 (mkLS [] []) (RArc RString) (LString [x61]) = LPanic PUnexpectedLiteral /\
+  pclass_top (mkLS [] []) (LString [x61]) (item_cty (RArc RString)) = Some PCNoArm /\
+  well_typed_lit pf0 (mkLS [] []) (erase RBytesVec) (LString [x61]) = true /\
+  default_val_lit pf0 (mkLS [] []) RBytesVec (LString [x61]) = LPanic PUnexpectedLiteral.
+Proof. vm_compute. repeat split; reflexivity. Qed.
+
+(* path convert: a REFERENCE to a const of container type (its CodegenTy is LazyStaticRef / Array, never the field's);
+   a const of a typedef type used at the aliased type *)
+Example path_convert_refuted :
   well_typed_lit pf0 W_const_set (erase (RSet RI32)) (LConst 0) = true /\
   default_val_lit pf0 W_const_set (RSet RI32) (LConst 0) = LPanic PInvalidConvert /\
-  pclass_top W_const_set (LConst 0) (item_cty (RSet RI32)) = Some PCPathConvert.
+  pclass_top W_const_set (LConst 0) (item_cty (RSet RI32)) = Some PCPathConvert /\
+  default_val_lit pf0 (mkLS [INewType RI32] [(RPath 0, LInt 1)]) RI32 (LConst 0) = LPanic PInvalidConvert.
 Proof. vm_compute. repeat split; reflexivity. Qed.
 
-(* the pairs without an arm: integer at a set<double> element, string at binary (rust_type = vec), anything at an Arc *)
-Example no_arm_refuted :
-  well_typed_lit pf0 (mkLS [] []) (erase (RSet ROrderedF64)) (LList [LInt 1]) = true /\
-  default_val_lit pf0 (mkLS [] []) (RSet ROrderedF64) (LList [LInt 1]) = LPanic PUnexpectedLiteral /\
-  pclass_top (mkLS [] []) (LList [LInt 1]) (item_cty (RSet ROrderedF64)) = Some PCNoArm /\
-  well_typed_lit pf0 (mkLS [] []) (erase RBytesVec) (LString [x61]) = true /\
-  default_val_lit pf0 (mkLS [] []) RBytesVec (LString [x61]) = LPanic PUnexpectedLiteral /\
-  well_typed_lit pf0 (mkLS [] []) (erase (RArc RString)) (LString [x61]) = true /\
-  default_val_lit pf0 (mkLS [] []) (RArc RString) (LString [x61]) = LPanic PUnexpectedLiteral.
+(* nested map: what is left is a map literal where only lit_into_ty looks: a map KEY (no Rust map is hashable anyway) *)
+Example map_key_refuted :
+  well_typed_lit pf0 (mkLS [] []) (erase (RMap (RMap RI8 RI8) RI8)) (LMap [(LMap [(LInt 1, LInt 2)], LInt 3)]) = true /\
+  default_val_lit pf0 (mkLS [] []) (RMap (RMap RI8 RI8) RI8) (LMap [(LMap [(LInt 1, LInt 2)], LInt 3)]) = LPanic PUnexpectedLiteral /\
+  pclass_top (mkLS [] []) (LMap [(LMap [(LInt 1, LInt 2)], LInt 3)]) (item_cty (RMap (RMap RI8 RI8) RI8)) = Some PCNestedMap.
 Proof. vm_compute. repeat split; reflexivity. Qed.
 
 (* ---------- non-vacuity: a schema with defaults of every kind satisfies the hypotheses ---------- *)
